@@ -6,6 +6,8 @@
    For every system X:
      X_fields   : the ordered, typed list of values that Go's challenge() passes to hash.WriteAny
      X_challenge_items = map fld_hval (X_fields ...) : list hval   (Framing.write_any gives the exact byte stream)
+     (this version models the tree with work/zkfix/01-zk-validate.diff applied: IsValid validates the Pedersen commitments,
+      pedersen.Verify and zkfac bound the integer exponents, zkdec / zkmul reject responses EncWithNonce would refuse)
      X_verify   : the verifier, check by check IN THE ORDER of the Go Verify (IsValid, range checks, Pedersen
                   check, Paillier / group equations) as a function of (public statement, commitment, challenge,
                   responses).  Result [option bool]:  Some true = accept, Some false = reject,
@@ -52,12 +54,18 @@ Definition valid_mod (n x : Z) : bool := (0 <=? x) && (x <? n) && (gcd_mod n x =
 (* IsValidBigModN for one value: Sign = 1, < n, gcd = 1 *)
 Definition valid_big (n x : Z) : bool := (0 <? x) && (x <? n) && (gcd_mod n x =? 1).
 
+(* IsBoundedInt: |n| < 2^(1+l+eps) N^2 for N of the size of a Paillier modulus: TrueLen <= 1 + 768 + 2*2048 *)
+Definition zk_bounded (z : Z) : bool := truelen z <=? 1 + zk_LEps + 2 * zk_BitsN.
+(* IsInPlaintextRange: |m| <= (N-1)/2, the range accepted by EncWithNonce (N odd: N >> 1 = N / 2) *)
+Definition in_plaintext (n m : Z) : bool := Z.abs m <=? n / 2.
+
 (* ---- pkg/pedersen ---- *)
 (* Commit: s^x t^y mod N (ExpI with signed exponents) *)
 Definition ped_commit (n s t x y : Z) : Z := (expI n s x * expI n t y) mod n.
 
-(* Verify(a, b, e, S, T): S, T valid mod N and s^a t^b = S T^e *)
+(* Verify(a, b, e, S, T): a, b of bounded size, S, T valid mod N and s^a t^b = S T^e *)
 Definition ped_verify (n s t a b e S T : Z) : bool :=
+  zk_bounded a && zk_bounded b &&
   valid_mod n S && valid_mod n T &&
   ((expI n s a * expI n t b) mod n =? (expI n T e * S) mod n).
 
@@ -227,6 +235,7 @@ Section Curve.
   Definition logstar_challenge_items nh s t n0 C X Gb S A Y D :=
     map fld_hval (logstar_fields nh s t n0 C X Gb S A Y D).
   Definition logstar_verify (nh s t n0 C : Z) (X Gb : G) (S A : Z) (Y : G) (D : Z) (z1 z2 z3 e : Z) : option bool :=
+    guard (valid_mod nh S && valid_mod nh D) (
     guard (validate_ct n0 A) (
     guard (negb (gis_id Y)) (
     guard (valid_mod n0 z2) (
@@ -234,7 +243,7 @@ Section Curve.
     guard (ped_verify nh s t z1 z3 e D S) (
     enc_eq n0 z1 z2 (add n0 (mul n0 e C) A) (
     guard (geqb (act z1 Gb) (gadd (act e X) Y))
-    accept)))))).
+    accept))))))).
   Definition logstar_commit (nh s t n0 : Z) (Gb : G) (x alpha r mu gamma : Z) : option (Z * Z * G * Z) :=
     match enc n0 alpha r with
     | None => None
@@ -250,12 +259,14 @@ Section Curve.
   Definition dec_challenge_items nh s t n0 C X S T A Gamma := map fld_hval (dec_fields nh s t n0 C X S T A Gamma).
   Definition dec_verify (nh s t n0 C X S T A Gamma z1 z2 w e : Z) : option bool :=
     guard (negb (sc_zero Gamma)) (
+    guard (valid_mod nh S && valid_mod nh T) (
     guard (validate_ct n0 A) (
     guard (valid_mod n0 w) (
+    guard (in_plaintext n0 z1) (
     guard (ped_verify nh s t z1 z2 e T S) (
     enc_eq n0 z1 w (add n0 (mul n0 e C) A) (
     guard (z1 mod q =? (((e mod q) * (X mod q)) mod q + Gamma mod q) mod q)
-    accept))))).
+    accept))))))).
   Definition dec_commit (nh s t n0 y alpha mu nu r : Z) : option (Z * Z * Z * Z) :=
     match enc n0 alpha r with
     | None => None
@@ -273,6 +284,7 @@ Section Curve.
     map fld_hval (affg_fields nh s t n1 n0 Kv Dv Fp Xp A Bx By E S F T).
   Definition affg_verify (nh s t n1 n0 Kv Dv Fp : Z) (Xp : G) (A : Z) (Bx : G) (By E S F T : Z)
              (z1 z2 z3 z4 w wy e : Z) : option bool :=
+    guard (valid_mod nh E && valid_mod nh S && valid_mod nh F && valid_mod nh T) (
     guard (validate_ct n0 A) (
     guard (validate_ct n1 By) (
     guard (valid_mod n1 wy) (
@@ -289,7 +301,7 @@ Section Curve.
         guard (geqb (act z1 gbase) (gadd (act e Xp) Bx)) (
         enc_eq n1 z2 wy (add n1 (mul n1 e Fp) By)
         accept))
-    end))))))))).
+    end)))))))))).
   Definition affg_commit (nh s t n1 n0 Kv x y alpha beta rho rhoy gamma m delta mu : Z)
     : option (Z * G * Z * Z * Z * Z * Z) :=
     match enc n0 beta rho, enc n1 beta rhoy with
@@ -309,6 +321,7 @@ Section Curve.
     [FPed nh s t; FPk n0; FCt C; FCt D; FP X; FCt A; FP Bx; FNatN nh E; FNatN nh S].
   Definition mulstar_challenge_items nh s t n0 C D X A Bx E S := map fld_hval (mulstar_fields nh s t n0 C D X A Bx E S).
   Definition mulstar_verify (nh s t n0 C D : Z) (X : G) (A : Z) (Bx : G) (E S z1 z2 w e : Z) : option bool :=
+    guard (valid_mod nh E && valid_mod nh S) (
     guard (valid_mod n0 w) (
     guard (validate_ct n0 A) (
     guard (negb (gis_id Bx)) (
@@ -316,7 +329,7 @@ Section Curve.
     guard (ped_verify nh s t z1 z2 e E S) (
     guard (randomize n0 (mul n0 z1 C) w =? add n0 (mul n0 e D) A) (
     guard (geqb (act z1 gbase) (gadd (act e X) Bx))
-    accept)))))).
+    accept))))))).
   Definition mulstar_commit (nh s t n0 C x alpha r gamma m : Z) : Z * G * Z * Z :=
     (randomize n0 (mul n0 alpha C) r, act alpha gbase, ped_commit nh s t alpha gamma, ped_commit nh s t x m).
   Definition mulstar_respond (n0 x rho alpha r gamma m e : Z) : Z * Z * Z :=
@@ -329,6 +342,7 @@ Section Curve.
   Definition encelg_challenge_items nh s t n0 C A B X S D Y Zp T :=
     map fld_hval (encelg_fields nh s t n0 C A B X S D Y Zp T).
   Definition encelg_verify (nh s t n0 C : Z) (A B X : G) (S D : Z) (Y Zp : G) (T : Z) (z1 w z2 z3 e : Z) : option bool :=
+    guard (valid_mod nh S && valid_mod nh T) (
     guard (validate_ct n0 D) (
     guard (negb (sc_zero w || gis_id Y || gis_id Zp)) (
     guard (valid_mod n0 z2) (
@@ -337,7 +351,7 @@ Section Curve.
     guard (geqb (gadd (act z1 gbase) (act w A)) (gadd (act e X) Y)) (
     guard (geqb (act w gbase) (gadd (act e B) Zp)) (
     guard (ped_verify nh s t z1 z3 e T S)
-    accept))))))).
+    accept)))))))).
   Definition encelg_commit (nh s t n0 : Z) (A : G) (x alpha mu r beta gamma : Z) : option (Z * Z * G * G * Z) :=
     match enc n0 alpha r with
     | None => None
@@ -367,12 +381,13 @@ Definition enc_fields (nh s t n0 K S A C : Z) : list fld :=
   [FPed nh s t; FPk n0; FCt K; FNatN nh S; FCt A; FNatN nh C].
 Definition enc_challenge_items nh s t n0 K S A C := map fld_hval (enc_fields nh s t n0 K S A C).
 Definition enc_verify (nh s t n0 K S A C z1 z2 z3 e : Z) : option bool :=
+  guard (valid_mod nh S && valid_mod nh C) (
   guard (validate_ct n0 A) (
   guard (valid_mod n0 z2) (
   guard (in_leps z1) (
   guard (ped_verify nh s t z1 z3 e C S) (
   enc_eq n0 z1 z2 (add n0 (mul n0 e K) A)
-  accept)))).
+  accept))))).
 Definition enc_commit (nh s t n0 k alpha r mu gamma : Z) : option (Z * Z * Z) :=
   match enc n0 alpha r with
   | None => None
@@ -386,9 +401,10 @@ Definition mul_challenge_items n X Y C A B := map fld_hval (mul_fields n X Y C A
 Definition mul_verify (n X Y C A B z u v e : Z) : option bool :=
   guard (valid_mod n u && valid_mod n v) (
   guard (validate_ct n A && validate_ct n B) (
+  guard (in_plaintext n z) (
   guard (randomize n (mul n z Y) u =? add n (mul n e C) A) (
   enc_eq n z v (add n (mul n e X) B)
-  accept))).
+  accept)))).
 Definition mul_commit (n Y alpha r s : Z) : option (Z * Z) :=
   match enc n alpha s with
   | None => None
@@ -405,6 +421,7 @@ Definition affp_fields (nh s t n1 n0 Kv Dv Fp Xp A Bx By E S F T : Z) : list fld
 Definition affp_challenge_items nh s t n1 n0 Kv Dv Fp Xp A Bx By E S F T :=
   map fld_hval (affp_fields nh s t n1 n0 Kv Dv Fp Xp A Bx By E S F T).
 Definition affp_verify (nh s t n1 n0 Kv Dv Fp Xp A Bx By E S F T z1 z2 z3 z4 w wx wy e : Z) : option bool :=
+  guard (valid_mod nh E && valid_mod nh S && valid_mod nh F && valid_mod nh T) (
   guard (validate_ct n0 A) (
   guard (validate_ct n1 Bx && validate_ct n1 By) (
   guard (valid_mod n1 wx && valid_mod n1 wy) (
@@ -420,7 +437,7 @@ Definition affp_verify (nh s t n1 n0 Kv Dv Fp Xp A Bx By E S F T z1 z2 z3 z4 w w
       guard (ped_verify nh s t z1 z3 e E S) (
       guard (ped_verify nh s t z2 z4 e F T)
       accept))))
-  end)))))).
+  end))))))).
 Definition affp_commit (nh s t n1 n0 Kv x y alpha beta rho rhox rhoy gamma m delta mu : Z)
   : option (Z * Z * Z * Z * Z * Z * Z) :=
   match enc n0 beta rho, enc n1 alpha rhox, enc n1 beta rhoy with
@@ -441,6 +458,8 @@ Definition fac_fields (n0 nh s t P Q A B T : Z) : list fld :=
   [FMod n0; FPed nh s t; FNatN nh P; FNatN nh Q; FNatN nh A; FNatN nh B; FNatN nh T].
 Definition fac_challenge_items n0 nh s t P Q A B T := map fld_hval (fac_fields n0 nh s t P Q A B T).
 Definition fac_verify (n0 nh s t P Q A B T sigma z1 z2 w1 w2 v e : Z) : option bool :=
+  guard (valid_mod nh P && valid_mod nh Q && valid_mod nh A && valid_mod nh B && valid_mod nh T) (
+  guard (zk_bounded sigma && zk_bounded z1 && zk_bounded z2 && zk_bounded w1 && zk_bounded w2 && zk_bounded v) (
   guard (ped_verify nh s t z1 w1 e A P) (
   guard (ped_verify nh s t z2 w2 e B Q) (
   let R := (powmod nh s n0 * expI nh t sigma) mod nh in
@@ -448,7 +467,7 @@ Definition fac_verify (n0 nh s t P Q A B T sigma z1 z2 w1 w2 v e : Z) : option b
   let rhs := (expI nh R e * T) mod nh in
   guard (lhs =? rhs) (
   guard (in_leps1rootn z1 && in_leps1rootn z2)
-  accept))).
+  accept))))).
 Definition fac_commit (nh s t p q alpha beta mu nu r x y : Z) : Z * Z * Z * Z * Z :=
   let Q := ped_commit nh s t q nu in
   (ped_commit nh s t p mu, Q, ped_commit nh s t alpha x, ped_commit nh s t beta y,
@@ -472,8 +491,9 @@ Fixpoint prm_rounds (n s t : Z) (As Zs : list Z) (es : list bool) : bool :=
 (* Parallelize evaluates every round; the verdict is the conjunction *)
 Definition prm_verify (n s t : Z) (As Zs : list Z) (es : list bool) : option bool :=
   guard (ped_validate n s t) (
+  guard (forallb (valid_big n) (As ++ Zs)) (     (* Proof.IsValid, before any work goes to the pool *)
   guard (prm_rounds n s t As Zs es)
-  accept).
+  accept)).
 Definition prm_commit (n t : Z) (al : list Z) : list Z := map (fun a => powmod n t a) al.
 Definition prm_respond (phi lambda : Z) (al : list Z) (es : list bool) : list Z :=
   map (fun ae : Z * bool => let '(a, e) := ae in if e then (a + lambda) mod phi else a) (combine al es).
